@@ -1,3 +1,32 @@
+/-
+  C03H — deposits over whole histories (the history half of C03).
+
+  C03 (single step, GoatProofs/C03.lean) says what ONE successful `verifyDeposit` / `NewDeposits`
+  implies.  This file lifts it to arbitrary finite runs of the C05H operation language (all nine
+  message handlers with arbitrary arguments, execution-layer requests, dequeues, arbitrary changes of
+  the relayer group; failed operations roll back):
+
+    1. `deposited_nodup_invariant`   the credited keys stay pairwise distinct (only `NewDeposits`
+                                     writes the credited table: `apply_frame`, `apply_step`)
+    2. `deposited_monotone`, `credited_rejected_forever`
+                                     nothing is ever un-credited; a credited (txid, output) is refused
+                                     by `verifyDeposit` in every later state
+    3. `credited_at_most_once`, `credited_recorded`, `credited_exactly`
+                                     the receipts ever queued (handed over ++ still queued, C06H) have
+                                     pairwise distinct (txid, output), all recorded in the credited set
+    4. `credited_only_if_verified`, `credited_only_if_accepted`
+                                     every receipt ever queued is the result of a successful
+                                     `verifyDeposit` on the state of that moment
+    5. non-vacuity (`Example`)
+
+  Nothing had to be weakened: there is no `…_partial` theorem in this file.  One precision with
+  respect to the informal wish "verifyDeposit (state after ops1) = ok receipt": the handler calls
+  `verifyDeposit` on the *intermediate* state of its batch loop (the state after `ops1` with the
+  earlier receipts of the same batch already credited — this is what rejects duplicates inside one
+  batch).  `VerifiedBy` states both: acceptance on that intermediate state (the call really made) and,
+  as a consequence (`verifyDeposit_uncredit`), acceptance with the same receipt on the state after
+  `ops1` itself.
+-/
 import GoatModel.Bitcoin
 import GoatProofs.C03
 import GoatProofs.C05H
@@ -368,6 +397,14 @@ theorem stepNew_ok (e : Env) (g : G) (m : NewDepositsMsg) (rel' : Relayer.State)
   rw [hs]
   exact ⟨headers, t1, t2, t3, t4, t5⟩
 
+/-- link to `C03_deposit_once` / `C06H.newDeposits_appends`: the list they speak of is `stepNew` -/
+theorem stepNew_unique (e : Env) (g : G) (m : NewDepositsMsg) (rel' : Relayer.State) (s' : State)
+    (h : newDeposits e.c g.rel g.st m = .ok (rel', s')) (new : List DepositReceipt)
+    (hq : s'.queue.deposits = g.st.queue.deposits ++ new) : new = stepNew e g (.deposits m) := by
+  obtain ⟨_, _, _, _, hs, _⟩ := stepNew_ok e g m rel' s' h
+  have : s'.queue.deposits = g.st.queue.deposits ++ stepNew e g (.deposits m) := by rw [hs]
+  exact List.append_cancel_left (hq.symm.trans this)
+
 theorem stepNew_fail (e : Env) (g : G) (m : NewDepositsMsg) (h : ∀ r, newDeposits e.c g.rel g.st m ≠ .ok r) :
     stepNew e g (.deposits m) = [] := by
   cases hnd : newDeposits e.c g.rel g.st m with
@@ -465,5 +502,445 @@ theorem apply_step (e : Env) (g : G) (op : Op) :
     | err x => exact ⟨⟨[], [], C06H.Hist.nil⟩, by simp⟩
     | panic x => exact ⟨⟨[], [], C06H.Hist.nil⟩, by simp⟩
   | relayer rel' => exact ⟨⟨[], [], C06H.Hist.nil⟩, by simp [stepNew, apply]⟩
+
+/-- every operation but `NewDeposits` leaves the credited table untouched -/
+theorem apply_frame (e : Env) (g : G) (op : Op) (hop : ∀ m, op ≠ .deposits m) :
+    (apply e g op).st.deposited = g.st.deposited := by
+  have h := (apply_step e g op).2
+  have hs : stepNew e g op = [] := by
+    cases op <;> first | rfl | exact absurd rfl (hop _)
+  rw [h, hs, List.map_nil, List.append_nil]
+
+/-- a failed `NewDeposits` leaves the whole state untouched -/
+theorem apply_deposits_failed (e : Env) (g : G) (m : NewDepositsMsg) (h : ∀ r, newDeposits e.c g.rel g.st m ≠ .ok r) :
+    apply e g (.deposits m) = g := by
+  show withRes g (newDeposits e.c g.rel g.st m) = g
+  cases hnd : newDeposits e.c g.rel g.st m with
+  | ok r => exact absurd hnd (h r)
+  | err x => rfl
+  | panic x => rfl
+
+/-! ## 5. runs -/
+
+/-- **every run is a C06H history** whose batches are `batches` and whose appended deposits are
+    `queuedBy` (so all FIFO / nonce / cap theorems of C06H apply to these very lists) -/
+theorem run_hist (e : Env) : ∀ (ops : List Op) (g : G),
+    ∃ p r, C06H.Hist g.st (run e g ops).st (batches e g ops) (queuedBy e g ops) p r := by
+  intro ops
+  induction ops with
+  | nil => intro g; exact ⟨[], [], C06H.Hist.nil⟩
+  | cons op ops ih =>
+    intro g
+    obtain ⟨⟨p1, r1, h1⟩, _⟩ := apply_step e g op
+    obtain ⟨p2, r2, h2⟩ := ih (apply e g op)
+    exact ⟨p1 ++ p2, r1 ++ r2, h1.trans h2⟩
+
+/-- **decomposition (C06H)**: handed over ++ still queued = initially queued ++ queued by the run -/
+theorem everQueued_eq (e : Env) (ops : List Op) (g : G) :
+    everQueued e g ops = g.st.queue.deposits ++ queuedBy e g ops := by
+  obtain ⟨p, r, h⟩ := run_hist e ops g
+  exact C06H.fifo_deposits h
+
+/-- the credited table after a run is the initial table followed by the entries of the receipts the
+    run queued, in order -/
+theorem run_deposited (e : Env) : ∀ (ops : List Op) (g : G),
+    (run e g ops).st.deposited = g.st.deposited ++ (queuedBy e g ops).map entry := by
+  intro ops
+  induction ops with
+  | nil => intro g; simp [run, queuedBy]
+  | cons op ops ih =>
+    intro g
+    show (run e (apply e g op) ops).st.deposited = _
+    rw [ih, (apply_step e g op).2]
+    simp [queuedBy]
+
+theorem run_keys (e : Env) (ops : List Op) (g : G) :
+    depositedKeys (run e g ops).st = depositedKeys g.st ++ (queuedBy e g ops).map key := by
+  unfold depositedKeys
+  rw [run_deposited, List.map_append, List.map_map]
+  rfl
+
+/-! ### 1. the invariant -/
+
+/-- one operation preserves `Nodup` of the credited keys -/
+theorem deposited_nodup_step (e : Env) (g : G) (op : Op) (h : (depositedKeys g.st).Nodup) :
+    (depositedKeys (apply e g op).st).Nodup := by
+  by_cases hop : ∃ m, op = .deposits m
+  · obtain ⟨m, rfl⟩ := hop
+    show (depositedKeys (withRes g (newDeposits e.c g.rel g.st m)).st).Nodup
+    cases hnd : newDeposits e.c g.rel g.st m with
+    | ok r =>
+      obtain ⟨rel', s'⟩ := r
+      obtain ⟨_, _, _, h3⟩ := C03_deposit_once e.c g.rel rel' g.st s' m hnd h
+      exact h3
+    | err x => exact h
+    | panic x => exact h
+  · have hf := apply_frame e g op (fun m hm => hop ⟨m, hm⟩)
+    unfold depositedKeys at h ⊢
+    rw [hf]; exact h
+
+/-- **1. the credited keys stay pairwise distinct along every run** -/
+theorem deposited_nodup_invariant (e : Env) : ∀ (ops : List Op) (g : G),
+    (depositedKeys g.st).Nodup → (depositedKeys (run e g ops).st).Nodup := by
+  intro ops
+  induction ops with
+  | nil => intro g h; exact h
+  | cons op ops ih => intro g h; exact ih _ (deposited_nodup_step e g op h)
+
+/-! ### 2. monotone, rejected forever -/
+
+/-- **2a. nothing is ever un-credited** -/
+theorem deposited_monotone (e : Env) (g : G) (ops : List Op) (k : Bytes × Nat)
+    (h : k ∈ depositedKeys g.st) : k ∈ depositedKeys (run e g ops).st := by
+  rw [run_keys]; exact List.mem_append_left _ h
+
+/-- … in the strong form: the old table is a prefix of the new one (entries, hence also amounts,
+    are never rewritten or reordered) -/
+theorem deposited_prefix (e : Env) (g : G) (ops : List Op) :
+    g.st.deposited <+: (run e g ops).st.deposited := ⟨_, (run_deposited e ops g).symm⟩
+
+/-- … between any two points of a run -/
+theorem deposited_monotone_between (e : Env) (g : G) (ops1 ops2 : List Op) (k : Bytes × Nat)
+    (h : k ∈ depositedKeys (run e g ops1).st) : k ∈ depositedKeys (run e g (ops1 ++ ops2)).st := by
+  rw [C05H.run_append]; exact deposited_monotone e _ ops2 k h
+
+/-- **2b. once credited, rejected forever**: if the key (txid, output) is in the credited set at
+    some point of a run, then in every later state of the run `verifyDeposit` answers with an error
+    for every deposit with that transaction id and that output — whatever the rest of the deposit,
+    the headers, the relayer state, even the crypto parameters -/
+theorem credited_rejected_forever (e : Env) (g : G) (ops1 ops2 : List Op) (t : Bytes) (v : Nat)
+    (hk : (t, v) ∈ depositedKeys (run e g ops1).st)
+    (c : Crypto) (rel : Relayer.State) (headers : List (Nat × Bytes)) (d : Deposit)
+    (ht : c.dsha256 d.noWitnessTx = t) (hv : d.outputIndex = v) :
+    (∃ msg, verifyDeposit c rel (run e g (ops1 ++ ops2)).st headers d = .err msg) ∧
+    ∀ r, verifyDeposit c rel (run e g (ops1 ++ ops2)).st headers d ≠ .ok r := by
+  have hm := deposited_monotone_between e g ops1 ops2 (t, v) hk
+  have hd : hasDeposited (run e g (ops1 ++ ops2)).st (c.dsha256 d.noWitnessTx) d.outputIndex = true := by
+    rw [ht, hv]; exact (hasDeposited_iff _ _ _).mpr hm
+  obtain ⟨msg, hmsg⟩ := verifyDeposit_credited_err c rel _ headers d hd
+  exact ⟨⟨msg, hmsg⟩, fun r hr => by rw [hmsg] at hr; cases hr⟩
+
+/-- … and a whole `NewDeposits` batch that contains such a deposit fails and changes nothing -/
+theorem credited_batch_rejected (e : Env) (g : G) (m : NewDepositsMsg) (d : Deposit) (hd : d ∈ m.deposits)
+    (hk : (e.c.dsha256 d.noWitnessTx, d.outputIndex) ∈ depositedKeys g.st) :
+    apply e g (.deposits m) = g := by
+  apply apply_deposits_failed
+  intro out hout
+  obtain ⟨rel', s'⟩ := out
+  obtain ⟨headers, _, _, hlen, _, hv⟩ := stepNew_ok e g m rel' s' hout
+  obtain ⟨k, hk1, rfl⟩ := List.getElem_of_mem hd
+  obtain ⟨_, v2⟩ := hv k hk1 (by rw [hlen]; exact hk1)
+  have v3 := verifyDeposit_uncredit _ _ _ _ _ _ _ v2
+  have hh : hasDeposited g.st (e.c.dsha256 (m.deposits[k]).noWitnessTx) (m.deposits[k]).outputIndex = true :=
+    (hasDeposited_iff _ _ _).mpr hk
+  obtain ⟨msg, hmsg⟩ := verifyDeposit_credited_err e.c g.rel g.st headers _ hh
+  rw [hmsg] at v3; cases v3
+
+/-! ### 3. credited at most once -/
+
+/-- general form (the initial queue may hold receipts, provided they are themselves credited and
+    pairwise distinct): the keys of all receipts ever queued are pairwise distinct, each of them is
+    in the final credited set, and the final credited set is the initial one plus the keys of the
+    receipts queued by the run -/
+theorem credited_at_most_once_general (e : Env) (g : G) (ops : List Op)
+    (hn : (depositedKeys g.st).Nodup)
+    (hq : (g.st.queue.deposits.map key).Nodup) (hqc : ∀ r ∈ g.st.queue.deposits, key r ∈ depositedKeys g.st) :
+    ((everQueued e g ops).map key).Nodup ∧
+    (∀ r ∈ everQueued e g ops, key r ∈ depositedKeys (run e g ops).st) ∧
+    depositedKeys (run e g ops).st = depositedKeys g.st ++ (queuedBy e g ops).map key := by
+  have hfin := deposited_nodup_invariant e ops g hn
+  have hk := run_keys e ops g
+  rw [hk, List.nodup_append] at hfin
+  obtain ⟨_, hnew, hdis⟩ := hfin
+  rw [everQueued_eq, List.map_append]
+  refine ⟨?_, ?_, hk⟩
+  · rw [List.nodup_append]
+    refine ⟨hq, hnew, ?_⟩
+    intro a ha b hb
+    obtain ⟨r, hr, rfl⟩ := List.mem_map.mp ha
+    exact hdis _ (hqc r hr) b hb
+  · intro r hr
+    rw [hk]
+    rcases List.mem_append.mp hr with h | h
+    · exact List.mem_append_left _ (hqc r h)
+    · exact List.mem_append_right _ (List.mem_map_of_mem h)
+
+/-- **3. each (txid, output) is credited at most once in the lifetime of the chain**: from a state
+    with an empty deposit queue and pairwise distinct credited keys, along every run, the receipts
+    ever queued (handed over ++ still queued) have pairwise distinct (txid, output) -/
+theorem credited_at_most_once (e : Env) (g : G) (ops : List Op)
+    (hn : (depositedKeys g.st).Nodup) (hq : g.st.queue.deposits = []) :
+    ((everQueued e g ops).map (fun r => (r.txid, r.txout))).Nodup :=
+  (credited_at_most_once_general e g ops hn (by rw [hq]; exact List.nodup_nil) (by rw [hq]; intro r hr; cases hr)).1
+
+/-- the same, as a pairwise statement on the receipts -/
+theorem credited_at_most_once_pairwise (e : Env) (g : G) (ops : List Op)
+    (hn : (depositedKeys g.st).Nodup) (hq : g.st.queue.deposits = []) :
+    (everQueued e g ops).Pairwise (fun a b => (a.txid, a.txout) ≠ (b.txid, b.txout)) := by
+  have h := credited_at_most_once e g ops hn hq
+  unfold List.Nodup at h
+  rw [List.pairwise_map] at h
+  exact h
+
+/-- the same, counting: no (txid, output) occurs twice among the receipts ever queued -/
+theorem credited_count_le_one (e : Env) (g : G) (ops : List Op)
+    (hn : (depositedKeys g.st).Nodup) (hq : g.st.queue.deposits = []) (k : Bytes × Nat) :
+    ((everQueued e g ops).map (fun r => (r.txid, r.txout))).count k ≤ 1 :=
+  List.nodup_iff_count.mp (credited_at_most_once e g ops hn hq) k
+
+/-- **3 (converse link)**: every receipt ever queued has its key in the final credited set -/
+theorem credited_recorded (e : Env) (g : G) (ops : List Op)
+    (hn : (depositedKeys g.st).Nodup) (hq : g.st.queue.deposits = []) (r : DepositReceipt)
+    (hr : r ∈ everQueued e g ops) : (r.txid, r.txout) ∈ depositedKeys (run e g ops).st :=
+  (credited_at_most_once_general e g ops hn (by rw [hq]; exact List.nodup_nil) (by rw [hq]; intro r hr; cases hr)).2.1 r hr
+
+/-- … and exactly: the final credited set is the initial one followed by the keys of the receipts
+    ever queued, in queueing order (no `Nodup` hypothesis needed) -/
+theorem credited_exactly (e : Env) (g : G) (ops : List Op) (hq : g.st.queue.deposits = []) :
+    depositedKeys (run e g ops).st = depositedKeys g.st ++ (everQueued e g ops).map (fun r => (r.txid, r.txout)) := by
+  rw [everQueued_eq, hq, List.nil_append]
+  exact run_keys e ops g
+
+/-- … with the amounts: the table records for each receipt ever queued amount + tax (mod 2^64) -/
+theorem credited_exactly_entries (e : Env) (g : G) (ops : List Op) (hq : g.st.queue.deposits = []) :
+    (run e g ops).st.deposited = g.st.deposited ++ (everQueued e g ops).map entry := by
+  rw [everQueued_eq, hq, List.nil_append]
+  exact run_deposited e ops g
+
+/-! ### 4. credited only if verified -/
+
+/-- `r` is the receipt of item `k` of the batch `m`, which succeeded on `g`: the item was well-formed
+    and `verifyDeposit` returned exactly `r` for it — on the intermediate state of the batch loop
+    (`g.st` with the first `k` receipts of the batch already credited; this is the call the handler
+    makes) and therefore also on `g.st` itself -/
+def VerifiedBy (e : Env) (g : G) (m : NewDepositsMsg) (r : DepositReceipt) : Prop :=
+  ∃ (out : Relayer.State × State) (headers : List (Nat × Bytes)) (k : Nat)
+    (h1 : k < m.deposits.length) (h2 : k < (stepNew e g (.deposits m)).length),
+    newDeposits e.c g.rel g.st m = .ok out ∧ blockHeadersMap m.headers = some headers ∧
+    (stepNew e g (.deposits m))[k] = r ∧ (m.deposits[k]).validate = true ∧
+    verifyDeposit e.c g.rel (credit g.st ((stepNew e g (.deposits m)).take k)) headers m.deposits[k] = .ok r ∧
+    verifyDeposit e.c g.rel g.st headers m.deposits[k] = .ok r
+
+theorem stepNew_verified (e : Env) (g : G) (op : Op) (r : DepositReceipt) (h : r ∈ stepNew e g op) :
+    ∃ m, op = .deposits m ∧ VerifiedBy e g m r := by
+  cases op with
+  | deposits m =>
+    refine ⟨m, rfl, ?_⟩
+    cases hnd : newDeposits e.c g.rel g.st m with
+    | ok out =>
+      obtain ⟨rel', s'⟩ := out
+      obtain ⟨headers, hh, _, hlen, _, hv⟩ := stepNew_ok e g m rel' s' hnd
+      obtain ⟨k, hk, rfl⟩ := List.getElem_of_mem h
+      have hk1 : k < m.deposits.length := by rw [← hlen]; exact hk
+      obtain ⟨v1, v2⟩ := hv k hk1 hk
+      exact ⟨(rel', s'), headers, k, hk1, hk, hnd, hh, rfl, v1, v2, verifyDeposit_uncredit _ _ _ _ _ _ _ v2⟩
+    | err x => rw [stepNew_fail e g m (by intro r h; rw [hnd] at h; cases h)] at h; cases h
+    | panic x => rw [stepNew_fail e g m (by intro r h; rw [hnd] at h; cases h)] at h; cases h
+  | _ => cases h
+
+theorem queuedBy_verified (e : Env) : ∀ (ops : List Op) (g : G) (r : DepositReceipt), r ∈ queuedBy e g ops →
+    ∃ ops1 m ops2, ops = ops1 ++ .deposits m :: ops2 ∧ VerifiedBy e (run e g ops1) m r := by
+  intro ops
+  induction ops with
+  | nil => intro g r h; cases h
+  | cons op ops ih =>
+    intro g r h
+    rcases List.mem_append.mp h with h | h
+    · obtain ⟨m, rfl, hv⟩ := stepNew_verified e g op r h
+      exact ⟨[], m, ops, rfl, hv⟩
+    · obtain ⟨ops1, m, ops2, rfl, hv⟩ := ih (apply e g op) r h
+      exact ⟨op :: ops1, m, ops2, rfl, hv⟩
+
+/-- general form: a receipt ever queued was either in the initial queue or was produced by a
+    successful `verifyDeposit` at the point of the run where it was queued -/
+theorem credited_only_if_verified_general (e : Env) (g : G) (ops : List Op) (r : DepositReceipt)
+    (hr : r ∈ everQueued e g ops) :
+    r ∈ g.st.queue.deposits ∨
+    ∃ ops1 m ops2, ops = ops1 ++ .deposits m :: ops2 ∧ VerifiedBy e (run e g ops1) m r := by
+  rw [everQueued_eq] at hr
+  rcases List.mem_append.mp hr with h | h
+  · exact Or.inl h
+  · exact Or.inr (queuedBy_verified e ops g r h)
+
+/-- **4. credited only if verified**: from an empty deposit queue, every receipt ever queued by a
+    run was queued by one of its `NewDeposits` operations `m`, run on the state reached by the
+    prefix `ops1`, as the receipt `verifyDeposit` returned for one of the items of `m` on that
+    state (`VerifiedBy`) -/
+theorem credited_only_if_verified (e : Env) (g : G) (ops : List Op) (hq : g.st.queue.deposits = [])
+    (r : DepositReceipt) (hr : r ∈ everQueued e g ops) :
+    ∃ ops1 m ops2, ops = ops1 ++ .deposits m :: ops2 ∧ VerifiedBy e (run e g ops1) m r := by
+  rcases credited_only_if_verified_general e g ops r hr with h | h
+  · rw [hq] at h; cases h
+  · exact h
+
+/-- what `VerifiedBy` means clause by clause (the conclusion of `C03_accept_implies` on the state
+    `s` reached by the prefix, under the relayer keys `rel` of that moment) -/
+def Accepted (c : Crypto) (rel : Relayer.State) (s : State) (headers : List (Nat × Bytes)) (d : Deposit) (r : DepositReceipt) : Prop :=
+  rel.pubkeys.contains d.pubkey.encode = true ∧
+  ∃ blockHash header outs,
+    nlookup s.hashes d.blockNumber = some blockHash ∧
+    (d.txIndex = 0 → d.blockNumber + 100 ≤ s.tip) ∧
+    nlookup headers d.blockNumber = some header ∧ header.length = 80 ∧ blockHash = c.dsha256 header ∧
+    BtcTx.parseNoWitness d.noWitnessTx = some outs ∧ d.outputIndex < outs.length ∧
+    hasDeposited s (c.dsha256 d.noWitnessTx) d.outputIndex = false ∧
+    s.params.minDeposit ≤ (outs[d.outputIndex]!).value ∧
+    ScriptOk c s.params.magic d outs ∧
+    Merkle.verify c.dsha256 (c.dsha256 d.noWitnessTx) ((header.drop 36).take 32) d.proof d.txIndex = true ∧
+    r = { address := d.evm, txid := c.dsha256 d.noWitnessTx, txout := d.outputIndex,
+          amount := (taxOf s.params (outs[d.outputIndex]!).value).1, tax := (taxOf s.params (outs[d.outputIndex]!).value).2 }
+
+/-- **4 (spelled out)**: every receipt ever queued comes from a deposit `d` of a `NewDeposits`
+    message of the run such that, on the state `s` and relayer keys of that moment: the key of `d` is
+    a registered relayer key; the block hash of the claimed height is voted and is the double hash of
+    the submitted 80-byte header; a claimed position 0 has 100 voted blocks above; the transaction
+    parses, the output exists, was not yet credited, pays at least the minimum to the script bound to
+    that key and EVM address; the transaction id is SPV-proven under the header's Merkle root at the
+    claimed position; and the receipt is (address, txid, output, value − tax, tax). -/
+theorem credited_only_if_accepted (e : Env) (g : G) (ops : List Op) (hq : g.st.queue.deposits = [])
+    (r : DepositReceipt) (hr : r ∈ everQueued e g ops) :
+    ∃ ops1 m ops2 headers d, ops = ops1 ++ .deposits m :: ops2 ∧ d ∈ m.deposits ∧ d.validate = true ∧
+      blockHeadersMap m.headers = some headers ∧
+      Accepted e.c (run e g ops1).rel (run e g ops1).st headers d r := by
+  obtain ⟨ops1, m, ops2, ho, _, headers, k, h1, _, _, hh, _, hval, _, hv⟩ := credited_only_if_verified e g ops hq r hr
+  exact ⟨ops1, m, ops2, headers, m.deposits[k], ho, List.getElem_mem h1, hval, hh,
+    C03_accept_implies _ _ _ _ _ _ hv⟩
+
+/-! ## 6. non-vacuity -/
+
+namespace Example
+
+/-- the toy crypto of C05H (double hash = 32 copies of the length) with a 32-byte `sha256` -/
+def c1 : Crypto := { C05H.c0 with sha256 := fun _ => List.replicate 32 0 }
+def pk1 : PubKey := { kind := 0, key := 2 :: List.replicate 32 0 }
+/-- the relayer group of C05H with one registered Bitcoin key -/
+def rel1 : Relayer.State := { C05H.rel0 with pubkeys := [pk1.encode] }
+def evm1 : Bytes := List.replicate 20 0xaa
+/-- a 94-byte transaction: one input, one output of 50000 to the P2WSH script of (evm1, pk1) -/
+def dtx1 : Bytes :=
+  [0,0,0,0] ++ [1] ++ List.replicate 36 0 ++ [0] ++ [0,0,0,0] ++ [1] ++ le64 50000 ++ [34] ++
+    ([0x00, 0x20] ++ List.replicate 32 0) ++ [0,0,0,0]
+/-- a 95-byte transaction (one byte of input script), output of 70000 to the same script -/
+def dtx2 : Bytes :=
+  [0,0,0,0] ++ [1] ++ List.replicate 36 0 ++ [1, 0] ++ [0,0,0,0] ++ [1] ++ le64 70000 ++ [34] ++
+    ([0x00, 0x20] ++ List.replicate 32 0) ++ [0,0,0,0]
+/-- an 80-byte header whose Merkle root field is the toy hash of a 64-byte node -/
+def hdr : Bytes := List.replicate 36 0 ++ List.replicate 32 64 ++ List.replicate 12 0
+def dep1 : Deposit :=
+  { version := 0, blockNumber := 3, txIndex := 1, noWitnessTx := dtx1, outputIndex := 0, proof := List.replicate 32 1,
+    evm := evm1, pubkey := pk1 }
+def dep2 : Deposit := { dep1 with noWitnessTx := dtx2 }
+def msg1 : NewDepositsMsg := { proposer := "p", headers := [(3, hdr)], deposits := [dep1] }
+def msg12 : NewDepositsMsg := { msg1 with deposits := [dep1, dep2] }
+def msg11 : NewDepositsMsg := { msg1 with deposits := [dep1, dep1] }
+def msg2 : NewDepositsMsg := { msg1 with deposits := [dep2] }
+/-- the empty bridge of C05H with the hash of height 3 voted (and announced), minimum deposit 1000, tax 1 % capped at 300 -/
+def s1 : State :=
+  { C05H.s0 with params := { minDeposit := 1000, confirmations := 1, taxRate := 100, maxTax := 300, magic := [] },
+                 hashes := [(3, List.replicate 32 80)], tip := 3, queue := { C05H.q0 with blockNumber := 3 } }
+def e1 : Env := { c := c1, rc := C05H.rc0, chainId := "x" }
+def g1 : G := { rel := rel1, st := s1, dPaid := [], dRefund := [] }
+def rcp1 : DepositReceipt := { address := evm1, txid := List.replicate 32 94, txout := 0, amount := 49700, tax := 300 }
+def rcp2 : DepositReceipt := { address := evm1, txid := List.replicate 32 95, txout := 0, amount := 69700, tax := 300 }
+
+/-- `verifyDeposit` accepts: the hypotheses of `C03_accept_implies` / `VerifiedBy` are satisfiable -/
+example : verifyDeposit c1 rel1 s1 [(3, hdr)] dep1 = .ok rcp1 := by decide
+
+/-- a batch of two distinct deposits succeeds, queues both receipts and credits both keys -/
+example : ∃ r, newDeposits c1 rel1 s1 msg12 = .ok r ∧ r.2.queue.deposits = [rcp1, rcp2] ∧
+    depositedKeys r.2 = [(List.replicate 32 94, 0), (List.replicate 32 95, 0)] :=
+  ⟨_, rfl, by decide, by decide⟩
+
+/-- a batch that repeats a deposit is rejected as a whole (the loop credits item by item) -/
+example : newDeposits c1 rel1 s1 msg11 = .err "duplicated" := rfl
+
+/-- a run: credit 1; replay of 1 (rejected); hand-over; batch {1, 2} (rejected: 1 is credited);
+    credit 2; replay of 2 (rejected) -/
+def ops : List Op := [.deposits msg1, .deposits msg1, .dequeue, .deposits msg12, .deposits msg2, .deposits msg2]
+
+example : (depositedKeys g1.st).Nodup ∧ g1.st.queue.deposits = [] := ⟨List.nodup_nil, rfl⟩
+
+example : handedDeposits e1 g1 ops = [rcp1] ∧ (run e1 g1 ops).st.queue.deposits = [rcp2] ∧
+    everQueued e1 g1 ops = [rcp1, rcp2] ∧ queuedBy e1 g1 ops = [rcp1, rcp2] ∧
+    (run e1 g1 ops).st.deposited = [((List.replicate 32 94, 0), 50000), ((List.replicate 32 95, 0), 70000)] := by
+  decide
+
+/-- the theorems instantiated on this run -/
+example : ((everQueued e1 g1 ops).map (fun r => (r.txid, r.txout))).Nodup :=
+  credited_at_most_once e1 g1 ops List.nodup_nil rfl
+example : ∃ ops1 m ops2, ops = ops1 ++ .deposits m :: ops2 ∧ VerifiedBy e1 (run e1 g1 ops1) m rcp2 :=
+  credited_only_if_verified e1 g1 ops rfl rcp2 (by decide)
+set_option maxRecDepth 8192 in
+example : apply e1 (run e1 g1 ops) (.deposits msg12) = run e1 g1 ops :=
+  credited_batch_rejected e1 _ msg12 dep1 (List.mem_cons_self ..) (by decide)
+
+end Example
+
+/-
+  Theorems of this file, in English.
+
+  vocabulary
+    key r, entry r             the key (txid, output) and the table entry ((txid, output), amount+tax mod 2^64) of a receipt
+    credit s rs                the state s with the receipts rs credited (only the credited table grows)
+    stepBatch / stepNew        what one operation hands over (a dequeue) / queues (a NewDeposits)
+    batches, queuedBy          … accumulated along a run
+    handedDeposits, everQueued the deposit receipts handed over by a run; those ++ the ones still queued
+    VerifiedBy, Accepted       "r is the receipt verifyDeposit returned for item k of batch m on g" / the clauses of C03_accept_implies
+
+  state reading of verifyDeposit
+    verifyDeposit_congr        verifyDeposit reads only the relayer keys, hashes, tip, params and whether the key is credited
+    verifyDeposit_credited_err if the key (txid, output) is credited, verifyDeposit returns an error
+    verifyDeposit_uncredit     acceptance on a state with more credited keys implies acceptance (same receipt) with fewer
+
+  one batch
+    go_trace                   the batch loop returns one receipt per item; item k was well-formed and accepted by
+                               verifyDeposit on the state with the first k receipts credited; only the credited table grows
+    newDeposits_trace          a successful NewDeposits: well-formed header map, sender is the proposer, the trace of
+                               go_trace under the relayer keys of the call, and the exact new state
+    stepNew_ok / stepNew_unique / stepNew_fail
+                               the same with the list named `stepNew`; it is the list of C03_deposit_once; [] on failure
+
+  frames (the credited table is written by nobody else)
+    processWithdrawal_deposited, replaceWithdrawal_deposited, finalizeWithdrawal_deposited,
+    approveCancellation_deposited, processBridgeRequest_deposited, newBlockHashes_deposited,
+    newPubkey_deposited, newConsolidation_deposited, dequeue_deposited
+                               each of these entry points leaves `deposited` unchanged
+    apply_step                 one operation is a one-step C06H history (batches stepBatch, appended deposits stepNew)
+                               and grows the credited table by exactly the entries of stepNew
+    apply_frame                every operation other than NewDeposits leaves the credited table unchanged
+    apply_deposits_failed      a failed NewDeposits leaves the whole state unchanged
+
+  runs
+    run_hist                   every run is a C06H history with batches `batches` and appended deposits `queuedBy`
+    everQueued_eq              handed over ++ still queued = initially queued ++ queued by the run
+    run_deposited / run_keys   final credited table (keys) = initial ++ entries (keys) of the receipts queued by the run
+    deposited_nodup_step       one operation preserves pairwise distinctness of the credited keys
+    deposited_nodup_invariant  (1) … hence every run does
+    deposited_monotone         (2a) a credited key stays credited along every run
+    deposited_prefix           … the old table is a prefix of the new one (entries never rewritten or reordered)
+    deposited_monotone_between … between any two points of a run
+    credited_rejected_forever  (2b) a key credited at some point makes verifyDeposit fail with an error, for every deposit
+                               with that txid and output, in every later state of the run
+    credited_batch_rejected    … and a NewDeposits batch containing such a deposit changes nothing
+    credited_at_most_once_general
+                               (3, initial queue allowed) keys of everQueued pairwise distinct, all in the final credited
+                               set, final set = initial ++ keys queued by the run
+    credited_at_most_once      (3) from an empty queue and distinct credited keys: the receipts ever queued have
+                               pairwise distinct (txid, output)
+    credited_at_most_once_pairwise, credited_count_le_one
+                               the same as a Pairwise statement / as "count ≤ 1"
+    credited_recorded          (3, converse) every receipt ever queued has its key in the final credited set
+    credited_exactly           final credited keys = initial keys ++ keys of the receipts ever queued, in order
+    credited_exactly_entries   … with the recorded amounts (amount + tax mod 2^64)
+    stepNew_verified, queuedBy_verified
+                               a receipt queued by an operation / a run is VerifiedBy a NewDeposits operation at that point
+    credited_only_if_verified_general
+                               a receipt ever queued was in the initial queue or is VerifiedBy … at its point of the run
+    credited_only_if_verified  (4) from an empty queue: ops = ops1 ++ NewDeposits m :: ops2 and verifyDeposit returned
+                               exactly this receipt for an item of m on the state after ops1
+    credited_only_if_accepted  (4, spelled out) … so all clauses of C03_accept_implies held on that state
+
+  Example                      a toy crypto, two deposits, a run with replays and a hand-over: hypotheses satisfiable,
+                               conclusions evaluated
+-/
 
 end Goat.C03H
